@@ -75,14 +75,15 @@ PROPS = {
     },
     "C02": {
         "verus": [("directory_lookup", ["Directory.lookup", "Directory.lookup_with_info", "Directory.get_lookup_info", "Directory.build_lookup_info", "Directory.derive_commitment_key",
-                                        "get_marker_version", "Azks.get_latest_epoch"]), ("verify_lookup", ["lookup_verify"])],
+                                        "Directory.batch_lookup", "lemma_the_info", "get_marker_version", "Azks.get_latest_epoch"]), ("verify_lookup", ["lookup_verify"])],
         "scope": "partial (server-side ASSEMBLY of a lookup answer + agreement with the verifier; not the tree contents): Directory::lookup reads the epoch record once and that one record decides the epoch of "
                  "the answer, the state filter, the tree the proofs are taken from and the root hash returned with them; get_lookup_info selects the newest state NOT NEWER than that epoch (LeqEpoch) and a label "
                  "without such a state gets an error, never a proof; build_lookup_info asks the VRF for exactly the triple (Fresh, v), (Fresh, 2^floor(log2 v)), (Stale, v) - the same `plog` the verifier's contract "
                  "(C06) uses, get_marker_version = 63 - leading_zeros verified; lookup_with_info fills every field from the component produced for the right (freshness, version) and tree label: the three VRF "
                  "proofs' bytes, membership proofs of the existent and marker labels, the non-membership proof of the stale label, value/version/epoch of the selected state, and the commitment nonce of "
                  "(key-derived commitment key, node label of the fresh VRF proof, version, value). Not decided: that the tree contains these leaves (C01), that honest membership / non-membership proofs verify "
-                 "(C05 completeness), batch_lookup's loop, lock discipline against the poller.",
+                 "(C05 completeness), lock discipline against the poller. batch_lookup: per label, in order, the answer is assembled from THE lookup info of (label, epoch of the one epoch record read) by the same lookup_with_info, "
+                 "and its assert_eq! can never fail (R-ASSERTEQ turns it into an obligation).",
         "trusted": ["T4 the VRF as functions of (key storage, label, freshness, version); R-UFCS rewrites `self.vrf.m(..)` into free-function stubs (the VRF trait has async methods)",
                     "T6 results of storage / tree reads are functions of what one request sees (user_state, mem_proof, nonmem_proof, root_hash_of, azks_read)",
                     "Directory is a model struct with the fields these functions touch; R-UTF8 makes the error-message choice opaque; the greedy preload only warms the cache (external)",
